@@ -729,12 +729,17 @@ class GCodeBuilder(GCodeCore):
         statement = self._get_statement(mode, kwargs)
         self.state._set_halt_mode(mode)
 
-        # Track temperatures if provided
+        # Track temperatures if provided. Every temperature word given
+        # is checked; if both are present S takes precedence over R
 
-        keys = ["S", "R"]  # Wait when heating, or wait always
-        temperature = self._get_user_param(keys, kwargs)
+        keys = ["R", "S"]  # Wait always, or wait when heating
 
-        if temperature is not None:
+        for key in keys:
+            temperature = self._get_user_param([key], kwargs)
+
+            if temperature is None:
+                continue
+
             if mode == HaltMode.WAIT_FOR_BED:
                 self.state._set_target_bed_temperature(temperature)
             elif mode == HaltMode.WAIT_FOR_HOTEND:
